@@ -1170,6 +1170,11 @@ def analyse(ck, prog, deep=False):
         from .c04 import check_disconnect
         from ..ebb3 import Engine as _Engine
         check_disconnect(ck, _Engine(prog, cls), 'C06-D8-no-port-after-disconnect')
+        # whether motors_enable sends the preliminary EM,r,r depends on how the QE reply is
+        # decoded: a wrong entry of that table makes the helper send text that is not documented
+        # for the request (or omit documented text)
+        from .c16 import check_decode_map
+        check_decode_map(ck, _Engine(prog, cls), prefix='C06-D9')
         # what a helper sends depends on its arguments, not on earlier calls
         from .. import purity
         reqs = [n for n in public_methods(cls) if not n.startswith('_')
